@@ -773,6 +773,20 @@ func (fv *FuncVC) callAsserts(keys []string, ord int, args []*Val, callee *ssa.F
 			}
 		}
 		t := env.tr(ca.Clause.Expr)
+		if len(env.errs) > 0 {
+			// a call site that precedes the declaration of a local the rule talks about is not a site the
+			// rule is about (the variable does not exist there): skip it
+			outOfScope := true
+			for _, e := range env.errs {
+				name := strings.TrimPrefix(e, "unknown identifier ")
+				if name == e || len(fv.localsByName[name]) == 0 {
+					outOfScope = false
+				}
+			}
+			if outOfScope {
+				continue
+			}
+		}
 		fv.reportSpecErrs(env, ca.Clause)
 		label := ca.Clause.Label
 		if label == "" {
